@@ -107,3 +107,17 @@ Example ex_storage :
   S_t2 0 0 no_subrs no_subrs [170; 12;21; 139; 21; 14]%N = T2Unspec /\
   S_t2 0 0 no_subrs no_subrs [146; 171; 12;20; 14]%N = T2Err EIndex.
 Proof. vm_compute. repeat split. Qed.
+
+(* work: subroutine i calls subroutine i+1 twice (10 levels), the charstring
+   calls subroutine 0 twice: 51 bytes, 6139 executed operands and operators;
+   with fan-out f the count is 2*(f + f^2 + ... + f^10) + ..., the bound
+   t2_step_bound is of the same order *)
+Definition fan_body (i : Z) : list N :=
+  let c := N.of_nat (Z.to_nat (i + 1 - 107 + 139)) in [c; 10; c; 10; 11]%N.
+Definition ex_fan : subrtab :=
+  mkTab 10 [11%N] ((9, [11%N]) :: map (fun i => (i, fan_body i)) [0;1;2;3;4;5;6;7;8]).
+Example ex_fanout :
+  final_steps (S_t2_state ex_fan no_subrs [32; 10; 32; 10; 14]%N) = 6139%N /\
+  t2_step_bound ex_fan no_subrs [32; 10; 32; 10; 14]%N = (5 * 6 ^ 10)%N /\
+  (cff_t2_maxSteps < t2_step_bound ex_fan no_subrs [32; 10; 32; 10; 14]%N)%N.
+Proof. vm_compute. repeat split. Qed.
